@@ -156,6 +156,14 @@ pub fn all(data: &Value, args: &Vec<&Value>) -> Result<Value, Error> {
     // if it's an object, in case it evaluates to a string or array, which
     // we will then pass on
 
+    // Only the elements of an array written literally in the rule are rule
+    // text. Elements of a computed collection are data and must be handed
+    // to the predicate as they are, never parsed.
+    let items_are_rule_text = match first_arg {
+        Value::Array(_) => true,
+        _ => false,
+    };
+
     let _new_item: Value;
     let potentially_evaled_first_arg = match first_arg {
         Value::Object(_) => {
@@ -211,11 +219,14 @@ pub fn all(data: &Value, args: &Vec<&Value>) -> Result<Value, Error> {
             if !res {
                 return Ok(false);
             };
-            let _parsed_item = Parsed::from_value(i)?;
             // Evaluate each item as we go, in case we can short-circuit
-            let evaluated_item = _parsed_item.evaluate(data)?;
+            let evaluated_item: Value = if items_are_rule_text {
+                Parsed::from_value(i)?.evaluate(data)?.into()
+            } else {
+                i.clone()
+            };
             Ok(logic::truthy_from_evaluated(
-                &predicate.evaluate(&evaluated_item.into())?,
+                &predicate.evaluate(&evaluated_item)?,
             ))
         })
     })?;
@@ -237,6 +248,14 @@ pub fn some(data: &Value, args: &Vec<&Value>) -> Result<Value, Error> {
     // the items fail to match the predicate. However, we will parse
     // if it's an object, in case it evaluates to a string or array, which
     // we will then pass on
+
+    // Only the elements of an array written literally in the rule are rule
+    // text. Elements of a computed collection are data and must be handed
+    // to the predicate as they are, never parsed.
+    let items_are_rule_text = match first_arg {
+        Value::Array(_) => true,
+        _ => false,
+    };
 
     let _new_item: Value;
     let potentially_evaled_first_arg = match first_arg {
@@ -293,11 +312,14 @@ pub fn some(data: &Value, args: &Vec<&Value>) -> Result<Value, Error> {
             if res {
                 return Ok(true);
             };
-            let _parsed_item = Parsed::from_value(i)?;
             // Evaluate each item as we go, in case we can short-circuit
-            let evaluated_item = _parsed_item.evaluate(data)?;
+            let evaluated_item: Value = if items_are_rule_text {
+                Parsed::from_value(i)?.evaluate(data)?.into()
+            } else {
+                i.clone()
+            };
             Ok(logic::truthy_from_evaluated(
-                &predicate.evaluate(&evaluated_item.into())?,
+                &predicate.evaluate(&evaluated_item)?,
             ))
         })
     })?;
